@@ -1,6 +1,7 @@
 /-
 pm_c31: model driver for C31.  Strings travel as dot-separated decimal code points (`e` = empty).
-Values: `s<str>` string, `d<str>` duration (canonical Go text), `i<int>` integer, `b0`/`b1`,
+Values: `s<str>` string, `d<int>` duration in nanoseconds (rendered by the model's `durString` =
+`time.Duration.String`, read by `parseDur` = `time.ParseDuration`), `i<int>` integer, `b0`/`b1`,
 `f<tok64>/<tok32>` float (tok64 = FormatFloat(v,'f',-1,64), tok32 = what go-toml's formatter prints:
 the float formatter is a parameter of the model, its value on this input is supplied by the generator
 from strconv), `l<elem>;<elem>;..` string list (`l-` = empty list).
@@ -10,6 +11,8 @@ from strconv), `l<elem>;<elem>;..` string list (`l-` = empty list).
          supplied value
   rp <flag>=<val>,<flag>=<val>,...   a complete configuration (all options of the table)
   gen <flag>=<val>,...               the same for the default configuration (generate-config)
+  ds <int ns>                        -> time.Duration(ns).String() as code points
+  pd <text>                          -> `ok <ns>` / `err`   time.ParseDuration(text)
       -> `text=<rendered TOML, code points> back=<flag>=<val>,... | err`  (back = what the server ends up
          with when started on the rendered file: parse, then setAllConfig with the file as only source)
          #spec = same text, back = the configuration that was rendered
@@ -28,13 +31,13 @@ def encStr (s : Str) : String :=
 
 /-- A typed value on the wire. -/
 inductive WVal where
-  | str (s : Str) | dur (s : Str) | int (n : Int) | bool (b : Bool)
+  | str (s : Str) | dur (ns : Int) | int (n : Int) | bool (b : Bool)
   | float (t64 t32 : Str) | list (xs : List Str)
 
 def decVal (s : String) : Option WVal :=
   match s.toList with
   | 's' :: r => (decStr (String.ofList r)).map .str
-  | 'd' :: r => (decStr (String.ofList r)).map .dur
+  | 'd' :: r => (String.ofList r).toInt?.map .dur
   | 'i' :: r => (String.ofList r).toInt?.map .int
   | ['b', '0'] => some (.bool false)
   | ['b', '1'] => some (.bool true)
@@ -48,7 +51,7 @@ def decVal (s : String) : Option WVal :=
 
 def encVal : WVal → String
   | .str s => "s" ++ encStr s
-  | .dur s => "d" ++ encStr s
+  | .dur n => "d" ++ toString n
   | .int n => "i" ++ toString n
   | .bool b => if b then "b1" else "b0"
   | .float a b => "f" ++ encStr a ++ "/" ++ encStr b
@@ -57,7 +60,7 @@ def encVal : WVal → String
 /-- Canonical scalar text of a wire value (what ends in the flag variable, printed canonically). -/
 def toVal : WVal → Val
   | .str s => .scalar s
-  | .dur s => .scalar s
+  | .dur n => .scalar (durString n)
   | .int n => .scalar (renderInt n)
   | .bool b => .scalar (if b then "true".toList else "false".toList)
   | .float a _ => .scalar a
@@ -78,7 +81,7 @@ def stripDotZero (t : Str) : Str :=
 
 def toTVal : WVal → TVal
   | .str s => .str s
-  | .dur s => .str s
+  | .dur n => .str (durString n)   -- MarshalTOML = Duration.String, written as a TOML string
   | .int n => .int n
   | .bool b => .bool b
   | .float _ t32 => .float t32
@@ -88,7 +91,7 @@ def toTVal : WVal → TVal
 def backVal (w : WVal) (tv : TVal) : Option Val :=
   match w, tv with
   | .str _, .str s => some (.scalar s)
-  | .dur _, .str s => some (.scalar s)
+  | .dur _, .str s => (parseDur s).map (fun d => .scalar (durString d))   -- durationValue.Set = ParseDuration
   | .int _, .int n => some (.scalar (renderInt n))
   | .bool _, .bool b => some (.scalar (if b then "true".toList else "false".toList))
   | .float _ _, .float t => some (.scalar (stripDotZero t))
@@ -178,6 +181,14 @@ def step (_u : Unit) (ws : List String) : Unit × Ans :=
       let m := match resolve s with | some v => showVal v | none => "err"
       ((), ans2 m (showVal (Spec.expected s)) "strslice-resplit")
     | _, _, _, _ => bad
+  | ["ds", n] =>
+    match n.toInt? with
+    | some d => ((), ans (encStr (durString d)))
+    | none => bad
+  | ["pd", t] =>
+    match decStr t with
+    | some s => ((), ans (match parseDur s with | some d => "ok " ++ toString d | none => "err"))
+    | none => bad
   | ["rp", c] =>
     match decCfg c with
     | some cfg => ((), renderParse cfg)
